@@ -214,6 +214,7 @@ async def run_scenario(loop, scenario, **kw):
         tr.audits.append((len(tr.steps), closed, timers, pending, tr.cli._connection is not None))
 
     with tr.net.patched(), patch("aioesphomeapi.client.APIConnection", tr.make_conn):
+        await asyncio.sleep(0)      # see conntrace.run_scenario
         for a in scenario:
             if a[0] == "drain":
                 await simnet.drain(loop)
